@@ -1,19 +1,31 @@
 """shared library contracts of the platform parser modules (assumed; see DESIGN.md section 5)"""
+PAT_OF = "implies(result is not None, uf('pattern_of', 'Obj', some(result)) == pattern)"
 RE_LIB = {
     "re.match": {"params": ["pattern", "string"], "types": {"pattern": "Obj", "string": "Str"}, "returns": "Opt[Obj]", "result_meta": {"always_truthy": True},
-                 "ensures": ["result == uf('re_match', 'Opt[Obj]', pattern, string)"]},
+                 "ensures": ["result == uf('re_match', 'Opt[Obj]', pattern, string)", PAT_OF]},
     "re.search": {"params": ["pattern", "string"], "types": {"pattern": "Obj", "string": "Str"}, "returns": "Opt[Obj]", "result_meta": {"always_truthy": True},
-                  "ensures": ["result == uf('re_search', 'Opt[Obj]', pattern, string)"]},
+                  "ensures": ["result == uf('re_search', 'Opt[Obj]', pattern, string)", PAT_OF]},
+    "re.finditer": {"params": ["pattern", "string"], "types": {"pattern": "Obj", "string": "Str"}, "returns": "Seq[Obj]",
+                    "ensures": ["forall('mi', implies(0 <= mi and mi < len(result), uf('pattern_of', 'Obj', result[mi]) == pattern"
+                                " and uf('match_string', 'Str', result[mi]) == string), result[mi])"]},
+    # m.start(): a position inside the searched string;  m.group(0) is never longer than what follows it
+    "Obj.start": {"params": [], "receiver": "m", "types": {"m": "Obj"}, "returns": "Int",
+                  "ensures": ["0 <= result", "result <= len(uf('match_string', 'Str', m))"]},
     "re.sub": {"params": ["pattern", "repl", "string"], "types": {"pattern": "Obj", "repl": "Str", "string": "Str"}, "returns": "Str", "ensures": []},
     "Obj.match": {"params": ["string"], "receiver": "pattern", "types": {"pattern": "Obj", "string": "Str"}, "returns": "Opt[Obj]", "result_meta": {"always_truthy": True},
-                  "ensures": ["result == uf('re_match', 'Opt[Obj]', pattern, string)"]},
+                  "ensures": ["result == uf('re_match', 'Opt[Obj]', pattern, string)", PAT_OF]},
     "Obj.search": {"params": ["string"], "receiver": "pattern", "types": {"pattern": "Obj", "string": "Str"}, "returns": "Opt[Obj]", "result_meta": {"always_truthy": True},
-                   "ensures": ["result == uf('re_search', 'Opt[Obj]', pattern, string)"]},
+                   "ensures": ["result == uf('re_search', 'Opt[Obj]', pattern, string)", PAT_OF]},
     "Obj.sub": {"params": ["repl", "string"], "receiver": "pattern", "types": {"pattern": "Obj", "repl": "Str", "string": "Str"}, "returns": "Str", "ensures": []},
     # a match object: group(n) of a mandatory group is a str, of an optional group Opt[str]; declared per call site through obj 'group'
-    "Obj.group": {"params": ["n"], "receiver": "m", "types": {"m": "Obj", "n": "Int"}, "returns": "Opt[Str]", "ensures": ["result == uf('match_group', 'Opt[Str]', m, n)"]},
+    "Obj.group": {"params": ["n"], "receiver": "m", "types": {"m": "Obj", "n": "Int"}, "returns": "Opt[Str]", "ensures": ["result == uf('match_group', 'Opt[Str]', m, n)",
+                              # a group that is mandatory in the pattern that produced the match is a str (sre parse tree of the real pattern)
+                              "implies(uf('group_mandatory', 'Bool', uf('pattern_of', 'Obj', m), n), result is not None)",
+                              # group(0) is the whole match: at least as long as the minimal width of the pattern (sre getwidth of the real pattern)
+                              "implies(n == 0 and result is not None, len(some(result)) >= uf('regex_min_width', 'Int', uf('pattern_of', 'Obj', m)))"]},
     # urllib.parse.urlsplit through ural.utils.safe_urlsplit: ValueError on unbalanced brackets / NFKC; else a record with str fields
     "safe_urlsplit": {"params": ["url"], "types": {"url": "Obj"}, "returns": "Obj", "raises": {"ValueError": None},
+                      "result_meta": {"unpack": ["Str", "Str", "Str", "Str", "Str"]},
                       "ensures": ["result == uf('safe_urlsplit', 'Obj', url)"]},
     "urlsplit": {"params": ["url"], "types": {"url": "Str"}, "returns": "Obj", "raises": {"ValueError": None},
                  "result_meta": {"unpack": ["Str", "Str", "Str", "Str", "Str"]}, "ensures": []},
@@ -21,10 +33,12 @@ RE_LIB = {
     "urljoin": {"params": ["base", "url"], "types": {"base": "Str", "url": "Str"}, "returns": "Str", "raises": {"ValueError": None}, "ensures": []},
     "unquote": {"params": ["string"], "types": {"string": "Str"}, "returns": "Str", "ensures": []},
     "ensure_protocol": {"params": ["url", "protocol"], "types": {"url": "Str", "protocol": "Str"}, "defaults": {"protocol": "'http'"}, "returns": "Str", "ensures": []},
-    "pathsplit": {"params": ["urlpath"], "types": {"urlpath": "Str"}, "returns": "Seq[Str]", "ensures": ["result == uf('pathsplit', 'Seq[Str]', urlpath)"]},
+    "pathsplit": {"params": ["urlpath"], "types": {"urlpath": "Str"}, "returns": "Seq[Str]", "ensures": ["result == uf('pathsplit', 'Seq[Str]', urlpath)",
+                              # proved for the real pathsplit in contracts/utils.py
+                              "(len(result) == 0) == (urlpath.strip() == '' or urlpath.strip() == '/')"]},
     # urllib.parse.parse_qs: values are non-empty lists
     "safe_parse_qs": {"params": ["query"], "types": {"query": "Str"}, "returns": "Dict[Str,Seq[Str]]",
                       "ensures": ["forall('qk', implies(qk in result, len(result[qk]) >= 1), result[qk])"]},
 }
 URL_ATTRS = {"hostname": "Opt[Str]", "path": "Str", "fragment": "Str", "query": "Str", "netloc": "Str", "scheme": "Str"}
-BOUND = {"qk": "Str"}
+BOUND = {"qk": "Str", "mi": "Int"}
